@@ -144,9 +144,45 @@ def contributions(func: Func) -> list[Sink]:
                 return n.args[1].value, n.args[2]
         return None
 
+    hashers: dict[str, ast.Call] = {}
+
+    def strip_encode(a: ast.expr) -> ast.expr:
+        if isinstance(a, ast.Call) and isinstance(a.func, ast.Attribute) and a.func.attr == "encode":
+            return a.func.value
+        return a
+
     def walk(stmts: list[ast.stmt], top: bool) -> None:
         for st in stmts:
+            if isinstance(st, ast.If) and any(isinstance(n, ast.Call) and (dotted(n.func) or "").startswith("hashlib.") for n in walk_local(st)):
+                # a digest computed under a condition (legacy: only when no id was supplied): analyse the branch as a region of its own
+                walk(st.body, False)
+                continue
             hc = find_hash_call(st)
+            # incremental hashing: h = hashlib.sha256()
+            if hc is not None and not hc.args and isinstance(st, ast.Assign) and isinstance(st.targets[0], ast.Name) and st.value is hc:
+                hashers[st.targets[0].id] = hc
+                env[st.targets[0].id] = []
+                continue
+            if isinstance(st, ast.Expr) and isinstance(st.value, ast.Call) and isinstance(st.value.func, ast.Attribute) \
+                    and st.value.func.attr == "update" and isinstance(st.value.func.value, ast.Name) and st.value.func.value.id in hashers \
+                    and len(st.value.args) == 1:
+                h = st.value.func.value.id
+                env[h] = env[h] + eval_str(strip_encode(st.value.args[0]), {k: v for k, v in env.items() if k not in hashers}, alias)
+                continue
+            sa0 = setattr_target(st)
+            if sa0 is not None and isinstance(sa0[1], ast.Call) and isinstance(sa0[1].func, ast.Attribute) and sa0[1].func.attr == "hexdigest" \
+                    and isinstance(sa0[1].func.value, ast.Name) and sa0[1].func.value.id in hashers:
+                h = sa0[1].func.value.id
+                sinks.append(Sink(sa0[0], list(env[h]), hashers[h], dotted(hashers[h].func) or "?", st))
+                continue
+            if isinstance(st, (ast.Assign, ast.AnnAssign)) and isinstance(getattr(st, "value", None), ast.Call) \
+                    and isinstance(st.value.func, ast.Attribute) and st.value.func.attr == "hexdigest" \
+                    and isinstance(st.value.func.value, ast.Name) and st.value.func.value.id in hashers:
+                tg = st.targets[0] if isinstance(st, ast.Assign) else st.target
+                if isinstance(tg, ast.Name):
+                    h = st.value.func.value.id
+                    pending[tg.id] = (list(env[h]), hashers[h], dotted(hashers[h].func) or "?", st)
+                    continue
             if hc is not None:
                 segs = snapshot(hc, st)
                 sa = setattr_target(st)
@@ -191,6 +227,8 @@ def contributions(func: Func) -> list[Sink]:
                 continue
             if isinstance(st, ast.For):
                 touched = {n.target.id for n in walk_body(st.body) if isinstance(n, ast.AugAssign) and isinstance(n.target, ast.Name) and n.target.id in env}
+                touched |= {n.func.value.id for n in walk_body(st.body) if isinstance(n, ast.Call) and isinstance(n.func, ast.Attribute) and n.func.attr == "update"
+                            and isinstance(n.func.value, ast.Name) and n.func.value.id in hashers}
                 touched |= {t.id for n in walk_body(st.body) if isinstance(n, ast.Assign) for t in n.targets if isinstance(t, ast.Name) and t.id in env}
                 if not touched:
                     continue
